@@ -46,7 +46,7 @@
   (list->string (reverse ls)))
 
 (define (string-join str-ls . o)
-  (let ((sep (if (pair? o) (car o) ""))
+  (let ((sep (if (pair? o) (car o) " "))
         (grammar (if (and (pair? o) (pair? (cdr o))) (cadr o) 'infix)))
     (case grammar
       ((infix) (%string-join str-ls sep))
